@@ -6,12 +6,13 @@ A *spec* is a small JSON-able dict; `build(spec)` turns it into a real
   1. an input GenBank text (header, source/gene/CDS/misc features, sequence with real ORFs at the
      gene positions) is written with Biopython and parsed again (like `parse_input_sequence`),
   2. `Record.from_biopython(parsed, taxon)` (real constructors for the input features),
-  3. antiSMASH annotations are added with the real feature classes and the real `Record.add_*`,
-     modelled on the code of the detection/analysis modules (sec_met domains and CORE gene functions
-     on rule anchors, protoclusters from `connect_locations` + `extend_location`, sideloaded areas via
-     the sideloader's own `to_secmet`, PFAM / TIGR / modular aSDomains, CDS motifs, modules,
-     prepeptides, gene functions, notes, misc features),
-  4. `record.create_candidate_clusters()` and `record.create_regions()`.
+  3. detection results are added with the real feature classes and the real `Record.add_*`, modelled on
+     the code of the detection modules (sec_met domains and CORE gene functions on rule anchors,
+     protoclusters from `connect_locations` + `extend_location`, sideloaded areas via the sideloader's own
+     `to_secmet`, subregions, misc features),
+  4. `record.create_candidate_clusters()` and `record.create_regions()`,
+  5. analysis annotations (PFAM / TIGR / modular aSDomains, CDS motifs, modules, prepeptides, gene
+     functions, notes) - like in the pipeline only on genes that lie inside a region, except PFAM hits.
 
 Spec keys
   L      record length            circ   0/1 topology           seed  sequence seed
@@ -325,21 +326,6 @@ def build(spec: dict) -> Any:
     length = len(record)
     circular = record.is_circular()
 
-    counter: dict = {}
-    for gene in spec["genes"]:
-        cds = record.get_cds_by_name(gene["n"])
-        for code in gene.get("a", []):
-            _decorate_gene(record, cds, code, counter)
-    # one module over two genes (trans-AT style) when X1 and X2 were both used
-    multi = counter.get("x", [])
-    if len(multi) >= 2 and multi[0].locus_tag != multi[1].locus_tag and multi[0].strand == multi[1].strand:
-        from antismash.common.secmet.features import Module
-        location = record.connect_locations([multi[0].location, multi[1].location])
-        if len(location.parts) == 1 or circular:
-            module = Module(location, multi[:2], module_type=Module.types.PKS, complete=True)
-            module.add_monomer("mal", "ohmal")
-            record.add_module(module)
-
     for code in spec.get("misc", []):
         _add_misc(record, code)
 
@@ -360,7 +346,12 @@ def build(spec: dict) -> Any:
                 left = right = max(0, (length - len(core)) // 2 - 1)
             annotation = ProtoclusterAnnotation(int(core_start), int(core_end), rule["prod"], tool, {},
                                                 left, right, circular_origin=length if circular else None)
-            record.add_protocluster(annotation.to_secmet())
+            sideloaded = annotation.to_secmet()
+            if any(len(part) == 0 for part in sideloaded.location.parts + sideloaded.core_location.parts):
+                # the sideloader builds an empty second part for an area ending exactly at the end of a
+                # circular record: not a well-formed input for the properties checked here
+                raise ValueError("sideloaded area with an empty part")
+            record.add_protocluster(sideloaded)
             continue
         surrounds = record.extend_location(core, rule["nb"])
         domain_name = f"{rule['prod']}_dom"
@@ -389,11 +380,46 @@ def build(spec: dict) -> Any:
             annotation = SubRegionAnnotation(parts[0][0], parts[-1][1], sub.get("label", ""), tool,
                                              {"extra": ["detail one", "detail two"]},
                                              circular_origin=length if circular else None)
-            record.add_subregion(annotation.to_secmet())
+            sideloaded_sub = annotation.to_secmet()
+            if any(len(part) == 0 for part in sideloaded_sub.location.parts):
+                raise ValueError("sideloaded area with an empty part")
+            record.add_subregion(sideloaded_sub)
         else:
             record.add_subregion(SubRegion(_location_from_parts(sub["p"]), sub["tool"], label=sub.get("label", "")))
 
     if spec.get("areas", 1):
         record.create_candidate_clusters()
         record.create_regions()
+
+    # analysis annotations: like the pipeline, only genes inside a region are analysed
+    # (PFAM hits of full_hmmer are genome-wide)
+    def in_region(cds: Any) -> bool:
+        for region in record.get_regions():
+            outer = [(int(p.start), int(p.end)) for p in region.location.parts]
+            if all(any(o_s <= int(p.start) and int(p.end) <= o_e for o_s, o_e in outer) for p in cds.location.parts):
+                return True
+        return False
+
+    counter: dict = {}
+    for gene in spec["genes"]:
+        cds = record.get_cds_by_name(gene["n"])
+        for code in gene.get("a", []):
+            if code == "P" or in_region(cds):
+                _decorate_gene(record, cds, code, counter)
+                if code == "D" and cds.region:
+                    # like modules.nrps_pks: predicted polymer and structure of the candidate clusters
+                    for candidate in cds.region.candidate_clusters:
+                        if cds in candidate.cds_children:
+                            candidate.polymer = "(mal) + (ohmal - ccmal)"
+                            candidate.smiles_structure = "CC(=O)CC(O)C(C)C(=O)O"
+    # one module over two genes (trans-AT style) when X1 and X2 were both used
+    multi = counter.get("x", [])
+    if len(multi) >= 2 and multi[0].locus_tag != multi[1].locus_tag and multi[0].strand == multi[1].strand:
+        from antismash.common.secmet.features import Module
+        location = record.connect_locations([multi[0].location, multi[1].location])
+        if len(location.parts) == 1 or circular:
+            module = Module(location, multi[:2], module_type=Module.types.PKS, complete=True)
+            module.add_monomer("mal", "ohmal")
+            record.add_module(module)
+
     return record
